@@ -778,6 +778,63 @@ def conditions_at(f, target):
     return out
 
 
+def inline_locals(f, expr, keep=(), depth=8):
+    """expr with every local of f that is assigned exactly once (a plain `name = expression`) replaced by that expression, recursively.
+    Names in `keep`, parameters, names assigned more than once and names bound by loops/with/unpacking stay. Returns a new tree."""
+    import copy
+    single = {}
+    multi = set()
+    for n in walk_no_nested(f):
+        if isinstance(n, ast.Assign) and len(n.targets) == 1 and isinstance(n.targets[0], ast.Name):
+            nm = n.targets[0].id
+            if nm in single and unparse(single[nm]) == unparse(n.value):
+                pass                       # the same definition repeated (e.g. once per branch)
+            elif nm in single or nm in multi:
+                multi.add(nm)
+                single.pop(nm, None)
+            else:
+                single[nm] = n.value
+        elif isinstance(n, (ast.AugAssign, ast.AnnAssign)) and isinstance(n.target, ast.Name):
+            multi.add(n.target.id)
+            single.pop(n.target.id, None)
+        elif isinstance(n, (ast.For, ast.comprehension)):
+            for x in ast.walk(n.target):
+                if isinstance(x, ast.Name):
+                    multi.add(x.id)
+                    single.pop(x.id, None)
+        elif isinstance(n, ast.Assign):
+            for t in n.targets:
+                for x in ast.walk(t):
+                    if isinstance(x, ast.Name) and isinstance(x.ctx, ast.Store):
+                        multi.add(x.id)
+                        single.pop(x.id, None)
+    ps = set(all_params(f))
+
+    def clean(node):
+        """deep copy without the _parent back-pointers"""
+        if isinstance(node, ast.AST):
+            new = type(node)()
+            for k, v in ast.iter_fields(node):
+                setattr(new, k, clean(v))
+            for k in ("lineno", "col_offset", "end_lineno", "end_col_offset"):
+                if hasattr(node, k):
+                    setattr(new, k, getattr(node, k))
+            return new
+        if isinstance(node, list):
+            return [clean(x) for x in node]
+        return node
+
+    class _Sub(ast.NodeTransformer):
+        def __init__(self, d):
+            self.d = d
+
+        def visit_Name(self, node):
+            if isinstance(node.ctx, ast.Load) and node.id in single and node.id not in keep and node.id not in ps and self.d > 0:
+                return _Sub(self.d - 1).visit(clean(single[node.id]))
+            return node
+    return _Sub(depth).visit(clean(expr))
+
+
 def params(f) -> list[str]:
     """Positional parameter names (positional-only first)."""
     return [a.arg for a in f.args.posonlyargs + f.args.args]
